@@ -127,6 +127,7 @@ class FilesWorld:
         the entry point under test then starts from the very same state.  C19 is an equivalence between entry points;
         comparing with a pristine process instead would also report defects of repeated use (C14 / C15) here."""
         import isolate
+        self._api_refs = getattr(self, "_api_refs", 0) + 1
 
         def fn():
             try:
@@ -356,7 +357,7 @@ class FilesWorld:
             seams.HOOKS.io = None
             os.chdir(self.workroot)
             shutil.rmtree(root, ignore_errors=True)
-        srcs = []
+        stats["api_refs"] = getattr(self, "_api_refs", 0)
         res = {"status": "violation" if violations else "ok", "violations": violations, "digest": log.digest(),
                "ops_digest": log.ops_digest(), "stats": dict(stats), "kinds": kinds,
                "dkey": core.digest_of(sorted(set(kinds)))[:16], "trace": trace, "nevents": log.seq,
